@@ -28,6 +28,7 @@ def step : Sexp → Option Sexp
       if nonLit then pure (list [atom "result", atom "excluded"]) else
       pure (list [atom "result", encProgram (mapUnits dropComments { p with units := p.units.map paramUnit })])
   | list (atom "fun" :: _) => some (list [atom "result", atom "oracle-only"])
+  | list (atom "sec" :: _) => some (list [atom "result", atom "oracle-only"])
   | _ => none
 
 def main : IO _root_.Unit := driverMain step
